@@ -2497,17 +2497,27 @@ def r30_const_static_lifetime(toks, counts):
         k += 1
         if k < len(sig) and is_p(toks[sig[k]], '('):
             k = next(i for i, idx in enumerate(sig) if idx == match_close(toks, sig[k])) + 1
-    if k >= len(sig) or not (is_id(toks[sig[k]], 'const') or is_id(toks[sig[k]], 'static')):
-        return toks
+    top = k < len(sig) and (is_id(toks[sig[k]], 'const') or is_id(toks[sig[k]], 'static'))
     out = []
     in_type = False
     for i, t in enumerate(toks):
         out.append(t)
-        if is_p(t, ':') and not in_type:
+        if not top and in_type is not True and is_id(t, 'const'):
+            # a `const NAME: &T = ..;` statement inside a function body
+            nm = next_sig(toks, i + 1)
+            co = next_sig(toks, nm + 1) if nm < len(toks) else len(toks)
+            if nm < len(toks) and toks[nm][0] == 'id' and co < len(toks) and is_p(toks[co], ':') and not (co + 1 < len(toks) and is_p(toks[co + 1], ':')):
+                in_type = 'pending'
+            continue
+        if in_type == 'pending':
+            if is_p(t, ':'):
+                in_type = True
+            continue
+        if top and is_p(t, ':') and in_type is False:
             in_type = True
-        elif is_p(t, '=') and in_type:
-            in_type = None   # done
-        elif in_type and is_p(t, '&'):
+        elif is_p(t, '=') and in_type is True:
+            in_type = None if top else False
+        elif in_type is True and is_p(t, '&'):
             nx = next_sig(toks, i + 1)
             if nx < len(toks) and toks[nx][0] != 'life':
                 out.append(('life', "'static"))
